@@ -228,7 +228,7 @@ static void ll_case(uint64_t idx, void *ctx)
 }
 /* ---- lines given outside any file (spifconf_parse_line(NULL, "CONTEXT text...")): each is one begin call, at most one text call and one end
  * call for its context; afterwards an ordinary file parses as if nothing had happened */
-static const char *AV[] = { "A attr value", "B x", "A", "zz text", "A %", "A %zz", "", "# c", "A t1 $V" };
+static const char *AV[] = { "A attr value", "B x", "A", "zz text", "A %", "A %zz", "", "# c", "A t1 $V", "A # note" };
 #define NAV ((int) (sizeof AV / sizeof AV[0]))
 static void av_model(int k)
 {
@@ -237,7 +237,7 @@ static void av_model(int k)
     if (ctx == '0') { m_unknown_ctx++; const char *sp = strchr(AV[k], ' '); if (sp && sp[1] && sp[1] != '%') m_null_errors++; return; }     /* the null context swallows its calls; text in it is an error */
     m_emit(ctx, 'B', "", 0);
     const char *sp = strchr(AV[k], ' ');
-    if (sp && sp[1] && sp[1] != '%') { char t[40]; snprintf(t, sizeof t, "%s", sp + 1); char *v = strstr(t, "$V"); if (v) strcpy(v, "val"); m_emit(ctx, 'T', t, 0); }
+    if (sp && sp[1] && sp[1] != '%' && sp[1] != '#') { char t[40]; snprintf(t, sizeof t, "%s", sp + 1); char *v = strstr(t, "$V"); if (v) strcpy(v, "val"); m_emit(ctx, 'T', t, 0); }
     m_emit(ctx, 'E', "", 0);
 }
 static void av_desc(uint64_t idx, void *ctx, char *b, size_t n)
